@@ -2132,6 +2132,7 @@ func (e *Engine) mapOrder(m *MapObj) ([]Val, []Val) {
 		}
 		perms = [][]int{id, rev}
 	}
+	e.path.MapOrder = true // native iteration order is the runtime's: not predictable
 	p := perms[e.chooseInt(0, len(perms)-1)]
 	ks, vs := make([]Val, n), make([]Val, n)
 	for i, j := range p {
